@@ -45,6 +45,11 @@ pub trait Prop: Sync {
     fn run(&self, world: &World, want_sample: bool) -> Verdict;
     /// Explicit tapes for the systematic part.
     fn systematic(&self, tier: Tier) -> Vec<Vec<u32>>;
+    /// Number of extra seeded runs executed next to a live connection that holds tens of MiB
+    /// (process-wide accounting, pooling or caching would only show there). 0 = no such pass.
+    fn pressure_runs(&self, _tier: Tier) -> u64 {
+        0
+    }
     /// Number of seeded random runs.
     fn random_runs(&self, tier: Tier) -> u64;
     fn rule(&self) -> String;
@@ -212,7 +217,18 @@ pub struct Options {
     pub runs_override: Option<u64>,
     pub write_evidence: bool,
     pub digest: bool,
+    /// Seeded runs only (used by the pressure pass).
+    pub skip_systematic: bool,
+    /// Size of the process-wide ballast connection that is alive during this batch, if any
+    /// (recorded in replay files so that a replay re-creates it).
+    pub ballast: Option<usize>,
 }
+
+/// Summary of the pressure pass (seeded runs next to a live connection holding tens of MiB), set by
+/// `main` before the main batch so that the evidence file can report it.
+pub static PRESSURE_SUMMARY: Mutex<Option<Value>> = Mutex::new(None);
+/// Set while a process-wide ballast connection exists.
+pub static UNDER_BALLAST: std::sync::atomic::AtomicBool = std::sync::atomic::AtomicBool::new(false);
 
 /// Returns the process exit code.
 pub fn run_batch(prop: &dyn Prop, opt: &Options) -> i32 {
@@ -222,7 +238,7 @@ pub fn run_batch(prop: &dyn Prop, opt: &Options) -> i32 {
         load_findings().into_iter().filter(|f| f.property == id && f.status == "open").collect();
     let known_classes: HashSet<String> = findings.iter().map(|f| f.class.clone()).collect();
 
-    let mut jobs: Vec<Job> = prop.systematic(opt.tier).into_iter().map(Job::Sys).collect();
+    let mut jobs: Vec<Job> = if opt.skip_systematic { Vec::new() } else { prop.systematic(opt.tier).into_iter().map(Job::Sys).collect() };
     let n_sys = jobs.len();
     let n_rand = opt.runs_override.unwrap_or_else(|| prop.random_runs(opt.tier));
     jobs.extend((0..n_rand).map(Job::Rand));
@@ -437,6 +453,7 @@ pub fn run_batch(prop: &dyn Prop, opt: &Options) -> i32 {
                 "extra": prop.extra_evidence(&a.stats),
                 "known_findings_reproduced": known_lines,
                 "violation": violation_json,
+                "pressure_pass": PRESSURE_SUMMARY.lock().unwrap().clone(),
             },
             "assumptions": prop.assumptions(),
             "wall_s": wall,
@@ -451,8 +468,8 @@ pub fn run_batch(prop: &dyn Prop, opt: &Options) -> i32 {
         println!("DIGEST {:016x} evals={} exit={}", a.digest, a.evals, exit);
     }
     println!(
-        "{id} {}: {} executions ({} systematic + {} seeded), {} distinct non-trivial schedule signatures, {} determinism re-runs, {:.1}s, exit {}",
-        opt.tier.name(), a.evals, n_sys, n_rand, a.sigs_nontrivial.len(), a.det_checked, wall, exit
+        "{id} {}{}: {} executions ({} systematic + {} seeded), {} distinct non-trivial schedule signatures, {} determinism re-runs, {:.1}s, exit {}",
+        opt.tier.name(), if opt.ballast.is_some() { " (pressure pass: next to a live connection holding tens of MiB)" } else { "" }, a.evals, n_sys, n_rand, a.sigs_nontrivial.len(), a.det_checked, wall, exit
     );
     exit
 }
@@ -506,6 +523,7 @@ fn write_replay(
         "message": out.fail.as_ref().map(|f| f.1.clone()),
         "history_hash": format!("{:016x}", out.hash),
         "tape": tape,
+        "ballast_bytes": opt.ballast,
         "scenario": out.sample,
         "trace": out.trace,
     });
@@ -632,6 +650,11 @@ pub fn replay_file(prop: &dyn Prop, path: &str) -> i32 {
         });
     }
     prop.thread_init();
+    // the run was recorded next to a live connection holding this many bytes: re-create it
+    let _ballast = v["ballast_bytes"].as_u64().map(|n| {
+        UNDER_BALLAST.store(true, Ordering::Relaxed);
+        crate::neighbours::ballast(n as usize)
+    });
     let out = run_one(prop, tape, true, true);
     if let Some(t) = &out.trace {
         for l in t {
